@@ -30,6 +30,9 @@ type Lemma struct {
 	Script string // declarations + (assert (not goal)); prelude is prepended
 	Quant  bool
 	Tier   string
+	// Timeout in seconds (0: 20 quick / 120 thorough); Bare: the script is self-contained (no prelude)
+	Timeout int
+	Bare    bool
 }
 
 type CheckCtx struct {
@@ -287,9 +290,15 @@ func (cc *CheckCtx) runLemma(l Lemma) {
 		head += "(set-option :auto_config false)\n(set-option :smt.mbqi false)\n"
 	}
 	script := head + filterPrelude(prelude, l.Script) + l.Script + "(check-sat)\n(get-model)\n"
+	if l.Bare {
+		script = head + l.Script + "(check-sat)\n(get-model)\n"
+	}
 	to := 20
 	if cc.Tier == "thorough" {
 		to = 120
+	}
+	if l.Timeout > to {
+		to = l.Timeout
 	}
 	t0 := time.Now()
 	sr := Solve(script, filepath.Join(smtOutDir, "lemmas"), slug(l.Name), to, nil)
